@@ -262,6 +262,35 @@ def parent_evidence():
             + defn("parent_exclusion_like_lint_file", "bool", "true" if pe == le else "false"))
 
 
+def parent_language():
+    """The parent's evidence loop must hand the cross-file rules the same language as lint_file does: both build
+    FileLintContext(file_path, <detect_language(file_path)>, metadata=...), and the loop skips files only on the exclusion test."""
+    cls = find_class(parse(CORE), "Orchestrator")
+    if not any(isinstance(n, ast.FunctionDef) and n.name == "_collect_cross_file_evidence" for n in cls.body):
+        return defn("parent_language_like_lint_file", "bool", "true")      # no parent loop at all (see parent_evidence)
+
+    def lang_expr(fn):
+        calls = [n for n in ast.walk(fn) if isinstance(n, ast.Call) and ast.unparse(n.func) == "FileLintContext"]
+        if len(calls) != 1 or len(calls[0].args) != 2 or ast.unparse(calls[0].args[0]) != "file_path":
+            raise Unsupported(f"{fn.name}: FileLintContext construction")
+        e = calls[0].args[1]
+        if isinstance(e, ast.Name):
+            defs = [st.value for st in ast.walk(fn) if isinstance(st, ast.Assign) and len(st.targets) == 1
+                    and isinstance(st.targets[0], ast.Name) and st.targets[0].id == e.id]
+            if len(defs) != 1:
+                raise Unsupported(f"{fn.name}: {e.id} assigned {len(defs)} times")
+            e = defs[0]
+        return ast.unparse(e)
+    g = _orch("_collect_cross_file_evidence")
+    pl, ll = lang_expr(g), lang_expr(_orch("lint_file"))
+    if pl != ll or ll != "detect_language(file_path)":
+        raise Unsupported(f"language handed to the rules: parent loop `{pl}`, lint_file `{ll}`")
+    n_continue = sum(1 for n in ast.walk(g) if isinstance(n, ast.Continue))
+    if n_continue != 1:
+        raise Unsupported(f"_collect_cross_file_evidence skips files in {n_continue} places (expected: the exclusion test only)")
+    return defn("parent_language_like_lint_file", "bool", "true")
+
+
 def _reraise_then_swallow(t: ast.Try, what: str):
     """handlers: zero or more `except T: raise`, then one handler that logs and does `return []`"""
     if not t.handlers or any(h.type is None for h in t.handlers):
@@ -459,6 +488,7 @@ ITEMS = [
     ("par_fallback", par_fallback),
     ("par_empty_guard", par_empty_guard),
     ("parent_evidence", parent_evidence),
+    ("parent_language", parent_language),
     ("worker", worker),
     ("extract", extract),
     ("safe_check", safe_check),
